@@ -73,7 +73,11 @@ def _k1(ctx: Context) -> None:
     tag = P.const_of(f"{M}.TAG_LENGTH")
     ck.check("C05.K1", tag == FRAME_TAG_BYTES, "TAG_LENGTH = 16", f"{M}:TAG_LENGTH", f"TAG_LENGTH is {tag}, the Poly1305 tag has 16 bytes", loc)
     for name, meth in (("PACK_UNSIGNED_SHORT_LITTLE", "pack"), ("UNPACK_UNSIGNED_SHORT_LITTLE", "unpack")):
-        v = P.const_of(f"{M}.{name}")
+        try:
+            v = P.const_of(f"{M}.{name}")
+        except Exception:  # noqa: BLE001 - the module no longer defines the constant (another spelling of the packer is used)
+            ck.unknown("C05.K1", f"{name} is no longer a module constant: the layout of the length prefix is read where it is used (T1 / T2)", loc)
+            continue
         ok = isinstance(v, StructMethod) and v.method == meth and v.struct.fmt == "<H"
         ck.check("C05.K1", ok, f"{name} = Struct('<H').{meth}", f"{M}:{name}", f"{name} is {v}: the length prefix must be an unsigned little-endian 16-bit value", loc)
     PROBE = 0x0102030405060708
@@ -135,7 +139,20 @@ def _t1(ctx: Context) -> None:
             if ft[0] == "attr" and ft[2] == "encrypt":
                 enc_nodes.append(n)
     if not enc_nodes:
-        ck.violated("C05.T1", f"{ctx.fkey(f)}:no-encrypt", "send_bytes no longer encrypts the payload", f.loc())
+        # the encryption may sit in a function send_bytes calls that the loader could not inline (a generator drained with
+        # list(), a helper with a loop that is used in several places): then the framing is not in this function and not decided
+        helpers = []
+        for n in cfg.nodes:
+            for c in ctx.calls(n):
+                for q_ in ctx.callee_names(f, c):
+                    g_ = ctx.prog.functions.get(q_)
+                    if g_ is not None and not isinstance(g_.node, ast.Lambda) and any(isinstance(x_, ast.Call) and isinstance(x_.func, ast.Attribute) and x_.func.attr == "encrypt"
+                                                                                      for x_ in ast.walk(g_.node)):
+                        helpers.append(q_)
+        if helpers:
+            ck.unknown("C05.T1", f"send_bytes: the frames are encrypted in {sorted(set(helpers))[0].rsplit('.', 1)[-1]}, which is not read as part of send_bytes (generator / shared helper): framing not decided", f.loc())
+        else:
+            ck.violated("C05.T1", f"{ctx.fkey(f)}:no-encrypt", "send_bytes no longer encrypts the payload", f.loc())
         return
     # several encrypt sites (e.g. a single-frame fast path next to the framing loop): the framing loop is where one sits in a loop
     enc_nodes.sort(key=lambda n: not any(fr[0] == "loop" and fr[2] == "body" for fr in n.frames))
@@ -151,11 +168,28 @@ def _t1(ctx: Context) -> None:
     en = enc_nodes[0]
     ecalls = [c for c in ctx.calls(en) if isinstance(c.func, (ast.Name, ast.Attribute)) and (lambda ft: ft[0] == "attr" and ft[2] == "encrypt")(T.of(cfg, en, c.func))]
     et = strip_sites(T.of(cfg, en, ecalls[0])) if ecalls else ("unknown", "")
+    local_ctr = False
     if et[0] == "call" and len(et[2]) == 3:
         nonce = et[2][1]
         ctr_t = nonce[2][1] if _is_pack(nonce, "<LQ") and len(nonce[2]) == 2 else None
         direct = ctr_t is not None and ctr_t[0] == "attr" and ctr_t[1] == ("param", "self")
-        ck.check("C05.T1", direct, "the nonce counter is the protocol's send counter attribute itself", f"{ctx.fkey(f)}:nonce-counter",
+        local_ctr = ctr_t is not None and not direct and contains(ctr_t, lambda s_: isinstance(s_, tuple) and s_[:2] == ("attr", ("param", "self")))
+        mm = None
+        if local_ctr:
+            from ._counter import advance_mismatch
+
+            mm = advance_mismatch(ctx, f, cfg, T, "c2a_counter")
+        if mm is not None:
+            ck.violated("C05.T1", f"{ctx.fkey(f)}:reserved-nonces-differ-from-frames",
+                        f"send_bytes advances the send counter once per request by `{mm[0].text()[:70]}`: for a request of {mm[1]} bytes that is {mm[2]}, but the request is cut "
+                        f"into {mm[3]} frame(s) - the counter and the accessory's frame count diverge (the next request reuses a nonce or cannot be opened)", ctx.loc(f, mm[0]), None,
+                        "the counter advances by the number of frames sent")
+        elif local_ctr:
+            # the counter threaded through a local and written back (see C06.G1): consecutive values are a fact about values
+            # along the loop that is not computed here
+            ck.unknown("C05.T1", f"send_bytes packs the nonce from a local computed from the send counter ({show(ctr_t, 60)}): the counter is threaded through a local - not decided", ctx.loc(f, en))
+        else:
+            ck.check("C05.T1", direct, "the nonce counter is the protocol's send counter attribute itself", f"{ctx.fkey(f)}:nonce-counter",
                  f"send_bytes builds the nonce from {show(ctr_t, 80) if ctr_t else 'a non-counter value'} instead of the send counter attribute: frame counters of "
                  "consecutive requests can overlap or skip", ctx.loc(f, en))
         if direct:
@@ -264,7 +298,7 @@ def _t1(ctx: Context) -> None:
         e = flat[1][1]
         if e[0] == "call" and e[1][0] == "attr" and e[1][2] == "encrypt" and len(e[2]) == 3:
             aad, nonce, pt = e[2]
-            ctr_ok = _is_pack(nonce, "<LQ") and len(nonce[2]) == 2 and nonce[2][0] == ("const", 0) and nonce[2][1][0] == "attr" and nonce[2][1][1] == ("param", "self")
+            ctr_ok = _is_pack(nonce, "<LQ") and len(nonce[2]) == 2 and nonce[2][0] == ("const", 0) and ((nonce[2][1][0] == "attr" and nonce[2][1][1] == ("param", "self")) or local_ctr)
             ok_enc = aad == want_len and ctr_ok and pt == chunk_t and e[1][1][0] == "attr" and e[1][1][1] == ("param", "self")
     ck.check("C05.T1", ok_enc, "second item: encrypt(aad = the length bytes, nonce = PACK_NONCE(send counter), plaintext = the chunk)",
              f"{ctx.fkey(f)}:cipher-item", f"send_bytes: the encrypted item is {show(flat[1][1], 200) if len(flat) == 2 else 'missing'}", ctx.loc(f, flat[1][0] if len(flat) == 2 else loops[0]))
@@ -282,6 +316,11 @@ def _t1(ctx: Context) -> None:
         bufs = {_u(cc.func.value) for _n, cc in [(e[0], x) for e in emits for x in ctx.calls(e[0]) if isinstance(x.func, ast.Attribute) and x.func.attr in ("append", "extend")]}
         bufs |= aug_bufs
         oks = arg is not None and _u(arg) in bufs and len(bufs) == 1
+        if not oks and arg is not None and len(bufs) == 1 and isinstance(arg, ast.Name) and strip_sites(T.of(cfg, n, arg)) in (("list", ()), ("sub", ("list", ()), ("const", 0))):
+            # handed over under another name (returned by an inlined helper in a tuple and unpacked): the same list as far as its
+            # definition goes, which list object it is is not followed
+            ck.unknown("C05.T1", f"send_bytes hands `{_u(arg)}` to _send_lines, the frames are appended to `{sorted(bufs)[0]}`: that these name one list is not decided", ctx.loc(f, n))
+            oks = True
     ck.check("C05.T1", oks, "exactly one _send_lines(buffer) after the loop, with the list the frames were appended to", f"{ctx.fkey(f)}:single-send",
              "send_bytes does not hand the complete frame list to _send_lines exactly once after the loop", ctx.loc(f, sl[0][0] if sl else loops[0]))
 
@@ -349,10 +388,33 @@ def _t2(ctx: Context) -> None:
     lenbuf = ("call", ("glob", "len"), (buf,), ())
     # guard
     gt = [n for n in cfg.nodes if n.kind == "test" and any(n.exprs[0] is x for x in ast.walk(loop.test))]
+    # a conjunct that is a flag whose value at the loop test is known (`while not done and ..` with `done = True; break`) decides nothing
+    gt = [n for n in gt if strip_sites(T.of(cfg, n, n.exprs[0]))[0] != "const" or len(gt) == 1]
+    if isinstance(loop.test, ast.Constant) and loop.test.value is True:
+        # `while True:` with the tests inside (the frame is taken by a helper that says "no complete frame" and the loop
+        # breaks on that answer): the guard is the test of len(buffer) against a constant, wherever it stands - what it has
+        # to do is the same: its "enough" outcome is the only way to the reads of the buffer, its other outcome ends the call
+        gt = [n for n in cfg.nodes if n.kind == "test" and (lambda t: t[0] == "cmp" and len(t[2]) == 2 and lenbuf in t[2] and any(x[0] == "const" for x in t[2]))(strip_sites(T.of(cfg, n, n.exprs[0])))]
+        for n in gt:
+            t = strip_sites(T.of(cfg, n, n.exprs[0]))
+            enough = {"GtE": "T", "Gt": "T", "Lt": "F", "LtE": "F"}.get(t[1][0]) if t[2][0] == lenbuf else {"GtE": "F", "Gt": "F", "Lt": "T", "LtE": "T"}.get(t[1][0])
+            if enough is None or t[2][0] != lenbuf:
+                ck.unknown("C05.T2", f"data_received: length test `{n.text()}` in a form not read", ctx.loc(f, n))
+                return
+            reads = [m for m in cfg.nodes if m.id != n.id and m.kind in ("stmt", "test") and m.ast is not None and any(
+                isinstance(x, (ast.Subscript, ast.Delete)) for x in ast.walk(m.ast if m.kind == "stmt" else m.exprs[0])) and any(
+                isinstance(x, ast.Subscript) and strip_sites(T.of(cfg, m, x.value)) == buf for x in ast.walk(m.ast if m.kind == "stmt" else m.exprs[0]))]
+            for m in reads:
+                ctx.must_pass("C05.T2", cfg, m, "len(buffer) covers the length prefix", cfg.out_edges(n, (enough,)), start=loops[0].id, desc=f"`{m.text()[:60]}` reads the buffer only after the length-prefix test of the same round")
+            for e in cfg.out_edges(n, ("F" if enough == "T" else "T",)):
+                reach = cfg.reachable_from(e[1]) | {e[1]}
+                ck.check("C05.T2", loops[0].id not in reach and cfg.exit.id in reach and not any(m.id in reach for m in reads), "a buffer shorter than a length prefix ends the call, nothing read or consumed",
+                         f"{ctx.fkey(f)}:short-buffer-continues", "data_received goes on (another round, or a read of the buffer) after finding the buffer shorter than a length prefix", ctx.loc(f, n))
     okg = False
     for n in gt:
         t = strip_sites(T.of(cfg, n, n.exprs[0]))
-        okg = t == ("cmp", ("GtE",), (lenbuf, ("const", FRAME_LENGTH_BYTES))) or t == ("cmp", ("Gt",), (lenbuf, ("const", FRAME_LENGTH_BYTES - 1)))
+        okg = t in (("cmp", ("GtE",), (lenbuf, ("const", FRAME_LENGTH_BYTES))), ("cmp", ("Gt",), (lenbuf, ("const", FRAME_LENGTH_BYTES - 1))),
+                    ("cmp", ("Lt",), (lenbuf, ("const", FRAME_LENGTH_BYTES))), ("cmp", ("LtE",), (lenbuf, ("const", FRAME_LENGTH_BYTES - 1))))
     gts = [strip_sites(T.of(cfg, n, n.exprs[0])) for n in gt]
     if not any(t[0] == "cmp" and lenbuf in t[2] for t in gts):
         # the loop is not driven by a test on the buffer length (frames taken by a helper, an index cursor ...): this
@@ -383,7 +445,19 @@ def _t2(ctx: Context) -> None:
         l, r = r, l
         op = {"Lt": "Gt", "Gt": "Lt", "LtE": "GtE", "GtE": "LtE"}.get(op, op)
     E = r
-    ck.check("C05.T2", E in E_forms, "expected length E = 2 + unpack('<H', buffer[:2])[0] + 16", f"{ctx.fkey(f)}:expected-length",
+    def _is_E(e_):
+        """2 + <the unsigned little-endian 16 bits at offset 0 of the buffer> + 16, in any spelling of the read and any order / grouping of the constants"""
+        from ..engine.terms import byte_field
+
+        parts_ = list(e_[1]) if e_[0] == "add" else [e_]
+        consts_ = [p_[1] for p_ in parts_ if p_[0] == "const" and isinstance(p_[1], int)]
+        rest_ = [p_ for p_ in parts_ if not (p_[0] == "const" and isinstance(p_[1], int))]
+        if len(rest_) != 1 or sum(consts_) != FRAME_LENGTH_BYTES + FRAME_TAG_BYTES:
+            return False
+        bf_ = byte_field(rest_[0])
+        return bf_ is not None and strip_sites(bf_[0]) == buf and bf_[1] == 0 and bf_[2] == 2 and bf_[3] in ("little", "<") and not bf_[4]
+
+    ck.check("C05.T2", E in E_forms or _is_E(E), "expected length E = 2 + unpack('<H', buffer[:2])[0] + 16", f"{ctx.fkey(f)}:expected-length",
              f"data_received: the expected frame length is {show(E, 160)} (must be length prefix 2 + declared length + tag 16)", ctx.loc(f, n))
     ck.check("C05.T2", op == "Lt", "incomplete-frame test is exactly len(buffer) < E", f"{ctx.fkey(f)}:incomplete-operator",
              f"data_received: the incomplete-frame test is `len(buffer) {op} E`: with <= a frame that just arrived completely is left waiting for a byte that never comes, "
@@ -405,7 +479,12 @@ def _t2(ctx: Context) -> None:
              "data_received consumes buffer bytes before/when it finds the frame incomplete (the rest of the frame will be misparsed on the next read)", ctx.loc(f, n))
     # ciphertext taken buf[2:E], deletion buf[:E] with the same E
     # (the statement that slices the buffer itself - copies of the taken value into temporaries / helper parameters do not count)
-    taken = [m for m in cfg.nodes if m.kind == "stmt" and isinstance(m.ast, ast.Assign) and isinstance(m.ast.value, ast.Subscript)
+    def _sliced(v):  # bytes(buffer[a:b]) slices the buffer just as buffer[a:b] does
+        while isinstance(v, ast.Call) and isinstance(v.func, ast.Name) and v.func.id in ("bytes", "bytearray") and len(v.args) == 1 and not v.keywords:
+            v = v.args[0]
+        return v
+
+    taken = [m for m in cfg.nodes if m.kind == "stmt" and isinstance(m.ast, ast.Assign) and isinstance(_sliced(m.ast.value), ast.Subscript)
              and strip_sites(T.of(cfg, m, m.ast.value)) == ("sub", buf, ("slice", ("const", FRAME_LENGTH_BYTES), E, None))]
     dels = []
     for m in cfg.nodes:
